@@ -53,7 +53,7 @@ Proof.
       assert (Heh : strip eh = []) by (destruct a as [|r0|v| |]; cbn in Hh; try (inversion Hh; reflexivity); destruct (_ =? _); inversion Hh; reflexivity).
       rewrite Heh. apply (Te_poll s s'); auto; [|intros e [<-|[]]; exact I].
       intros ->. cbn in Hh. destruct (_ =? _); inversion Hh; subst. rewrite m_aw_upd, Nat.eqb_refl. reflexivity.
-    - (* T_order *) intros s is s1 t E (HQ & dead & Hr & Hdd). split; [eapply M14; eauto|]. exists dead. split; auto. intros i Hi. rewrite (M11 _ _ _ E). auto.
+    - (* T_order *) intros s is s1 t _ E (HQ & dead & Hr & Hdd). split; [eapply M14; eauto|]. exists dead. split; auto. intros i Hi. rewrite (M11 _ _ _ E). auto.
     - intros s t HT. cbn. apply Te_tail; auto. intros e [<-|[]]. exact I.
     - intros s t o HT E. apply Te_tail; auto. intros e [<-|[]]. exact I.
     - intros s t _ _ HT. apply Te_tail; auto. intros e [<-|[]]. exact I.
